@@ -123,3 +123,11 @@ M("c04-area-diagonal", "C04", ("toast.py", "    if tile.increasing:\n        a1 
 M("c05-coords-transposed", "C05", ("toast.py", "        tile.corners[0],\n        tile.corners[1],\n        tile.corners[2],\n        tile.corners[3],\n        256,\n        tile.increasing,", "        tile.corners[0],\n        tile.corners[3],\n        tile.corners[2],\n        tile.corners[1],\n        256,\n        tile.increasing,"))
 M("c05-coords-orientation", "C05", ("toast.py", "        256,\n        tile.increasing,\n    )", "        256,\n        tile.increasing or tile.pos.n >= 3,\n    )"))
 M("c05-div4-python-diverges", "C05", ("toast.py", "    le = mid(ll, ul)\n", "    le = mid(ll, ul) if n < 9 else (mid(ll, ul)[0] + 1e-9, mid(ll, ul)[1])\n"))
+
+# ---- C12
+M("c12-level1-no-rotation", "C12", ("toast.py", "        level1_lon = (lon + np.pi) % TWOPI\n", "        level1_lon = lon\n"))
+M("c12-no-unwrap", "C12", ("toast.py", "    lons = lon + (lons - lon + np.pi) % TWOPI - np.pi\n", ""))
+M("c12-score-first-child", "C12", ("toast.py", "            if score > best_score:\n                tile = child\n                best_score = score", "            if score >= best_score - 1e-3:\n                tile = child\n                best_score = max(score, best_score)"))
+M("c12-quadrant-boundary", "C12", ("toast.py", "        if lon > np.pi and lon < THREEHALFPI and tile.pos.x == 0 and tile.pos.y == 1:", "        if lon > np.pi and lon < THREEHALFPI - 0.01 and tile.pos.x == 0 and tile.pos.y == 1:"))
+M("c12-stamp-offset", "C12", ("toast.py", "    return tile, x0 + x, y0 + y", "    return tile, min_x - halfsize + x, min_y - halfsize + y"))
+M("c12-lon-not-normalised", "C12", ("toast.py", "    lon = lon % TWOPI\n\n    if depth == 0:", "    lon = lon % TWOPI if lon >= 0 else lon + TWOPI\n\n    if depth == 0:"))
